@@ -6,6 +6,17 @@ from stix2.confidence import scales
 
 
 def call(case):
+    """The conversions are specified as functions of their argument: the same
+    call is made twice in this process and must answer the same both times
+    (a refusal remembered as a value by some cache would show up here)."""
+    first = call_once(case)
+    second = call_once(case)
+    if first != second:
+        return "EXC unstable: first call %s, second call %s" % (first, second)
+    return first
+
+
+def call_once(case):
     fn = getattr(scales, case["fn"], None)
     if fn is None:
         return "EXC MissingFunction"
